@@ -956,6 +956,10 @@ class Explorer:
         """Explore all paths of contract `cname` (one explicit case); returns a report dict."""
         c = self.contracts[cname]
         self.current = c
+        theory.reset_caches()
+        self.tags = Tags()
+        import gc
+        gc.collect()
         self.merge_light_only = bool(c.opts.get('split_heavy', False))
         self.opaque_specs = {k: (v[0], v[1]) for k, v in c.opts.get('opaque', {}).items()}
         self.quant = c.opts.get('quant')
